@@ -125,6 +125,10 @@ class DictProxy(dict):
     def copy(self) -> "DictProxy":
         return DictProxy(self.cfg, self.dict_field, self)
 
+    def __copy__(self) -> "DictProxy":
+        # copy.copy() would rebuild the dict entry by entry and validate the held entries again
+        return self.copy()
+
     def __setitem__(self, key: Any, value: Any) -> None:
         key, value = self._validate(key, value)
         super().__setitem__(key, value)
